@@ -676,7 +676,18 @@ func (vm *VM) BuildBlock(ctx context.Context, pChainCtx *block.Context, parent *
 }
 
 func (vm *VM) VerifyBlock(ctx context.Context, parent *chain.OutputBlock, block *chain.ExecutionBlock) (*chain.OutputBlock, error) {
-	return vm.chain.Execute(ctx, parent.View, block, vm.normalOp.Load())
+	isNormalOp := vm.normalOp.Load()
+	if !isNormalOp && vm.SyncClient != nil && vm.SyncClient.Started() {
+		// Finishing dynamic state sync re-verifies the still-processing blocks before normal operation
+		// is switched on. Accepted blocks are re-processed without the replay check (the validity window
+		// already contains them), but a block above the last accepted height is undecided and must not
+		// repeat a transaction of its ancestry.
+		lastAcceptedHeight, err := vm.chainStore.GetLastAcceptedHeight(ctx)
+		if err == nil && block.Hght > lastAcceptedHeight {
+			isNormalOp = true
+		}
+	}
+	return vm.chain.Execute(ctx, parent.View, block, isNormalOp)
 }
 
 func (vm *VM) AcceptBlock(ctx context.Context, _ *chain.OutputBlock, block *chain.OutputBlock) (*chain.OutputBlock, error) {
